@@ -12,6 +12,7 @@ from mc import explore, loader, vrt
 
 loader.install_shims()
 from mc import vnet  # noqa: E402
+from ref import e37  # noqa: E402
 
 vrt.trace_spin_loops(vrt.SPIN_MODULES)
 
@@ -34,7 +35,7 @@ def _big(i, n):
     return (block * reps)[:n]
 
 
-def run_one(devs, budgets, sizes=None, mode="server", via="conn"):
+def run_one(devs, budgets, sizes=None, mode="server", via="conn", fin=False):
     box = {}
 
     def driver(s):
@@ -71,6 +72,7 @@ def run_one(devs, budgets, sizes=None, mode="server", via="conn"):
                 peer.rx.clear()
         k.send_menu = True
         k.select_menu = True
+        k.fin_menu = fin
         results = []
         base = len(peer.rx)
         msgs = []
@@ -84,6 +86,8 @@ def run_one(devs, budgets, sizes=None, mode="server", via="conn"):
                 try:
                     ok = proto.send_message(m)
                 except Exception as exc:  # noqa: BLE001
+                    if isinstance(exc, vrt.Divergence):
+                        raise
                     ok = f"raised {exc!r}"
             else:
                 data = payload(i, n)
@@ -91,6 +95,8 @@ def run_one(devs, budgets, sizes=None, mode="server", via="conn"):
                 try:
                     ok = conn.send_data(data)
                 except Exception as exc:  # noqa: BLE001
+                    if isinstance(exc, vrt.Divergence):
+                        raise
                     ok = f"raised {exc!r}"
             results.append(ok)
         k.send_menu = False
@@ -103,7 +109,7 @@ def run_one(devs, budgets, sizes=None, mode="server", via="conn"):
 
     sched = vrt.run(driver, devs, budgets, max_steps=300000, max_time=600.0, line_points=False)
     res = {"trace": sched.trace, "v": []}
-    case = {"sizes": sizes, "mode": mode, "via": via}
+    case = {"sizes": sizes, "mode": mode, "via": via, "fin": fin}
     if sched.harness_failure or sched.driver_exception or box.get("harness"):
         res["harness"] = (sched.harness_failure or sched.driver_exception or box.get("harness"))[-1000:]
         res["obs"] = None
@@ -115,31 +121,52 @@ def run_one(devs, budgets, sizes=None, mode="server", via="conn"):
     results, received, msgs = box["results"], box["received"], box["msgs"]
     faults = [t[2] for t in sched.trace if t[0] == "env"]
     res["obs"] = {"results": [r if isinstance(r, bool) else "raised" for r in results], "received": len(received)}
-    # parse received as x1 x2 ...: complete if success, prefix if failure
-    pos = 0
+    # parse received as x1 x2 ...: complete if its send reported success, a (possibly empty) prefix if it reported failure or raised;
+    # through HsmsProtocol the endpoint may add control frames of its own after them (Separate.req when it sees the peer's FIN)
+    def tail_ok(pos):
+        rest = received[pos:]
+        if not rest:
+            return True
+        if via != "proto":
+            return False
+        frames, left = e37.parse(rest)
+        return not left and all(f["stype"] != 0 for f in frames)
+
+    def match(i, pos):
+        if i == len(msgs):
+            return tail_ok(pos)
+        m = msgs[i]
+        if results[i] is True:
+            return received[pos:pos + len(m)] == m and match(i + 1, pos + len(m))
+        rest = received[pos:pos + len(m)]
+        n = 0
+        while n < len(rest) and rest[n] == m[n]:
+            n += 1
+        return any(match(i + 1, pos + k) for k in range(n, -1, -1))
+
     bad = None
-    for i, (m, ok) in enumerate(zip(msgs, results)):
-        if ok is True:
-            if received[pos:pos + len(m)] != m:
-                got = received[pos:pos + len(m)]
-                kind = "truncated" if m.startswith(got) and len(got) < len(m) else ("corrupted" if len(got) == len(m) else "misplaced")
-                bad = (f"reported-success-but-{kind}", i, len(got), len(m))
-                break
-            pos += len(m)
-        else:
-            # failure (False or exception): whatever arrived of it must be a prefix of it
-            rest = received[pos:]
-            # longest prefix of m present
-            n = 0
-            lim = min(len(m), len(rest))
-            while n < lim and rest[n] == m[n]:
-                n += 1
-            # if later messages succeeded they must follow this prefix: try every prefix length from n down
-            pos += n
-            if not isinstance(ok, bool):
-                bad = bad or ("send-raised", i, str(ok)[:80], len(m))
-    if bad is None and pos != len(received):
-        bad = ("extra-bytes-after-last-message", len(msgs), len(received) - pos, 0)
+    if not match(0, 0):
+        # describe the first message that cannot be placed (greedy reading, for the report only)
+        pos = 0
+        for i, (m, ok) in enumerate(zip(msgs, results)):
+            got = received[pos:pos + len(m)]
+            if ok is True:
+                if got != m:
+                    kind = "truncated" if m.startswith(got) and len(got) < len(m) else ("corrupted" if len(got) == len(m) else "misplaced")
+                    bad = (f"reported-success-but-{kind}", i, len(got), len(m))
+                    break
+                pos += len(m)
+            else:
+                n = 0
+                while n < len(got) and got[n] == m[n]:
+                    n += 1
+                pos += n
+        if bad is None:
+            bad = ("extra-bytes-after-last-message", len(msgs), len(received) - pos, 0)
+    # the documented contract of send_data / send_message is a bool: an exception is neither
+    for i, ok in enumerate(results):
+        if bad is None and not isinstance(ok, bool):
+            bad = ("send-raised", i, str(ok)[:80], len(msgs[i]))
     if bad is not None:
         szclass = "big" if max(sizes) >= MIB else "small"
         res["v"].append((f"C10|{bad[0]}|{via}|{szclass}|faults={len([f for f in faults if f])}", {"case": case, "message": bad[1], "got_len": bad[2], "want_len": bad[3],
@@ -184,6 +211,14 @@ def run(ctx):
             ctx.exhaustive = False
         if ctx.out_of_time():
             break
+    # the peer half-closes in the middle of a send (FIN while the rest of the message is still to be written): env deviations x one delay
+    for cfg in ({"sizes": [17], "mode": "server", "via": "conn", "fin": True}, {"sizes": [17, 3], "mode": "client", "via": "conn", "fin": True},
+                {"sizes": [3], "mode": "server", "via": "proto", "fin": True}):
+        st = explore.explore(ctx, run_one, {"env": 2, "sched": 1}, f"c10-fin-{cfg['via']}-{cfg['mode']}-{cfg['sizes']}", opts=cfg, chunk=8)
+        parts.append({"cfg": cfg, "budgets": {"env": 2, "sched": 1}, "executions": st["executions"], "outcomes": st["distinct_outcomes"],
+                      "levels_completed": st["levels_completed"]})
+        tot_exec += st["executions"]
+        nontrivial += st["executions"] - 1
     ctx.setcov("evaluations", tot_exec)
     ctx.setcov("distinct_nontrivial", nontrivial)
     ctx.setcov("rule", "each execution = one assignment of environment answers (<= F deviations from 'everything accepted at once') to the "
@@ -197,7 +232,7 @@ def run(ctx):
 def replay(ctx, detail):
     case = detail["case"]
     devs = {int(k): v for k, v in case.get("devs", {}).items()}
-    r = run_one(devs, case.get("budgets", {}), sizes=case["sizes"], mode=case["mode"], via=case["via"])
+    r = run_one(devs, case.get("budgets", {}), sizes=case["sizes"], mode=case["mode"], via=case["via"], fin=case.get("fin", False))
     print("replayed:", r.get("obs"))
     ctx.evaluations += 1
     for sig, d in r["v"]:
